@@ -153,6 +153,8 @@ type xworld struct {
 	pooled   bool              // release every request's buffer context to the real pool when the request ends (as the proxy does)
 	dead     bool              // pooled mode: the connection was reset/closed; nothing is dispatched on it any more
 	reused   int               // pooled mode: how often NewStream handed out a pooled struct that an earlier request had used
+	manual   bool              // pooled mode: a request's buffer context is given back only by the op "give" (a request with retries:
+	                           // several client streams are created from the SAME context before the request ends)
 	rbuf     buffer.IoBuffer   // the connection's read buffer: ONE buffer, refilled for every read as network.connection does
 }
 
@@ -160,11 +162,37 @@ var seenStructs sync.Map // address of pooled xStream structs already used by a 
 
 // release gives the request's buffer context back to the pool (proxy: downstream.giveStream at the end of a request)
 func (w *xworld) release(rec *xstreamRec) {
-	if !w.pooled || rec.released {
+	if !w.pooled || rec.released || w.manual {
 		return
 	}
 	rec.released = true
 	delete(w.inflight, rec.idx)
+	buffer.PoolContext(rec.ctx).Give()
+}
+
+// give: the request that owns the context of stream s ends (all its attempts are over): the context goes back to the pool
+// superseded: a later attempt of the same request uses the pooled stream object of stream s now (the holder of an earlier
+// attempt does not touch it any more)
+func (w *xworld) superseded(s int) bool {
+	for _, r := range w.streams[s+1:] {
+		if r.ctx == w.streams[s].ctx {
+			return true
+		}
+	}
+	return false
+}
+
+func (w *xworld) give(s int) {
+	rec := w.streams[s]
+	if rec.released {
+		return
+	}
+	for _, r := range w.streams {
+		if r.ctx == rec.ctx {
+			r.released = true
+			delete(w.inflight, r.idx)
+		}
+	}
 	buffer.PoolContext(rec.ctx).Give()
 }
 
@@ -268,6 +296,10 @@ func (o xop) String() string {
 		return fmt.Sprintf("resp(%d)", o.ID)
 	case "reset":
 		return fmt.Sprintf("reset(%d)", o.S)
+	case "retry":
+		return fmt.Sprintf("retry(%d)", o.S)
+	case "give":
+		return fmt.Sprintf("give(%d)", o.S)
 	}
 	return o.K
 }
@@ -286,6 +318,7 @@ func (w *xworld) apply(o xop) (xobsT, []xfinding) {
 	var fs []xfinding
 	out := "ONone"
 	coqOut := "ONone"
+	wasInflight := o.K == "reset" && o.S < len(w.streams) && w.inflight[o.S]
 	before := make([]int, len(w.streams))
 	for i, s := range w.streams {
 		s.mu.Lock()
@@ -293,8 +326,14 @@ func (w *xworld) apply(o xop) (xobsT, []xfinding) {
 		s.mu.Unlock()
 	}
 	switch o.K {
-	case "new", "oneway":
+	case "give":
+		w.give(o.S)
+	case "new", "oneway", "retry":
 		ctx := buffer.NewBufferPoolContext(variable.NewVariableContext(context.Background()))
+		if o.K == "retry" {
+			// the next attempt of the request that owns stream S: the SAME request context (proxy: upstreamRequest of a retry)
+			ctx = w.streams[o.S].ctx
+		}
 		rec := &xstreamRec{idx: len(w.streams), tok: uint32(1000 + len(w.streams)), oneway: o.K == "oneway"}
 		var recv types.StreamReceiveListener
 		if !rec.oneway {
@@ -367,13 +406,14 @@ func (w *xworld) apply(o xop) (xobsT, []xfinding) {
 		}()
 		out, coqOut = "ODrop", "ODrop"
 	case "reset":
-		if !w.streams[o.S].released {
+		if !w.streams[o.S].released && !w.superseded(o.S) {
 			w.streams[o.S].sender.GetStream().ResetStream(types.StreamLocalReset)
 			delete(w.inflight, o.S)
 			w.release(w.streams[o.S])
 		}
 	case "connreset":
 		w.conn.Close(api.NoFlush, api.RemoteClose)
+		w.inflight = map[int]bool{} // every stream of the connection is reset by the connection
 		if w.pooled {
 			w.dead = true
 			for _, rec := range w.streams {
@@ -420,6 +460,40 @@ func (w *xworld) apply(o xop) (xobsT, []xfinding) {
 	if ndeliv > 1 {
 		fs = append(fs, xfinding{"xconn:one-response-delivered-to-several-streams", fmt.Sprintf("%s caused %d deliveries", o, ndeliv)})
 	}
+	// a reply whose id belongs to a stream that is over (reset / answered) reached the receiver of ANOTHER request
+	if o.K == "resp" {
+		for i, s := range w.streams {
+			s.mu.Lock()
+			n := len(s.recv)
+			s.mu.Unlock()
+			if i < len(before) && n > before[i] && s.id != o.ID {
+				fs = append(fs, xfinding{"xconn:late-reply-delivered-to-other-request", fmt.Sprintf("the reply with id %d was delivered to stream %d, whose id is %d", o.ID, i, s.id)})
+			}
+		}
+	}
+	// a stream reset by its holder has left the stream table and its listeners were told
+	if wasInflight && !w.superseded(o.S) && !w.dead {
+		rs := w.streams[o.S]
+		if !rs.oneway && (!rs.released || w.manual) {
+			owners := 0 // another in-flight stream may legitimately hold the same id (id space wrapped)
+			for i, fl := range w.inflight {
+				if fl && i != o.S && w.streams[i].id == rs.id {
+					owners++
+				}
+			}
+			for _, k := range sx.VerifClientStreamIDs(w.csc) {
+				if k == rs.id && owners == 0 {
+					fs = append(fs, xfinding{"xconn:stale-id-after-reset", fmt.Sprintf("stream %d (id %d) was reset by its holder and its id is still in the client stream table", o.S, rs.id)})
+				}
+			}
+			rs.mu.Lock()
+			d := rs.destroys
+			rs.mu.Unlock()
+			if d == 0 {
+				fs = append(fs, xfinding{"xconn:reset-not-signalled-to-listeners", fmt.Sprintf("stream %d (id %d) was reset by its holder while in flight; its listeners saw no OnResetStream / OnDestroyStream", o.S, rs.id)})
+			}
+		}
+	}
 	ob := xobsT{Out: out, coqOut: coqOut}
 	ob.Ctr, _ = sx.VerifIDBase(w.csc)
 	ob.Keys = sx.VerifClientStreamIDs(w.csc)
@@ -438,7 +512,7 @@ func (w *xworld) apply(o xop) (xobsT, []xfinding) {
 
 func (o xop) coq() string {
 	switch o.K {
-	case "new":
+	case "new", "retry":
 		return "XNew false"
 	case "oneway":
 		return "XNew true"
@@ -468,6 +542,8 @@ type xhist struct {
 	obs  []xobsT
 	fnd  []xfinding
 	kind string
+	gives  []string // retry family: where request contexts were given back to the buffer pool
+	reused int
 }
 
 func (h *xhist) key() string {
@@ -494,7 +570,7 @@ func (h *xhist) descr() map[string]interface{} {
 	for _, o := range h.ops {
 		ops = append(ops, o.String())
 	}
-	return map[string]interface{}{"generator": h.gen, "counter0": h.c0, "ops": ops, "obs": h.obs, "family": h.kind}
+	return map[string]interface{}{"generator": h.gen, "counter0": h.c0, "ops": ops, "obs": h.obs, "family": h.kind, "gives": h.gives, "pooled_struct_reuses": h.reused}
 }
 
 // script: ops given symbolically; "resp" with S>=0 answers the id of stream S (resolved at run time)
@@ -539,6 +615,42 @@ func (w *xworld) recheckDelivered() []xfinding {
 		}
 	}
 	return nil
+}
+
+// runRetry: pooled world in which a request's buffer context is given back only by "give"; "retry(S)" creates the next
+// attempt's client stream from the context of stream S.  "give" is no model step.
+func runRetry(gen string, c0 uint64, script []xop) *xhist {
+	w := newXWorld(gen, c0)
+	w.pooled, w.manual = true, true
+	h := &xhist{gen: gen, c0: c0, kind: "retry"}
+	for _, o := range script {
+		if (o.K == "reset" || o.K == "retry" || o.K == "give" || (o.K == "resp" && o.S >= 0)) && o.S >= len(w.streams) {
+			continue
+		}
+		if o.K == "resp" && o.S >= 0 {
+			o.ID = w.streams[o.S].id
+		}
+		if o.K == "retry" && (w.streams[o.S].released || w.streams[o.S].oneway) {
+			continue
+		}
+		if o.K == "reset" && (w.streams[o.S].released || w.superseded(o.S)) {
+			continue
+		}
+		if w.dead {
+			break
+		}
+		if o.K == "give" {
+			w.give(o.S)
+			h.gives = append(h.gives, fmt.Sprintf("give(%d) after step %d", o.S, len(h.ops)))
+			continue
+		}
+		ob, fs := w.apply(o)
+		h.ops = append(h.ops, o)
+		h.obs = append(h.obs, ob)
+		h.fnd = append(h.fnd, fs...)
+	}
+	h.reused = w.reused
+	return h
 }
 
 func permutations(n int) [][]int {
@@ -603,6 +715,25 @@ func c02(args []string) int {
 				add(runX(g, c0, "dup", sc))
 			}
 			// late: reset then the response arrives; repeated reset; reset after completion
+			// family retry: several client streams from the SAME request context (a request with retries), every attempt
+			// reset (per-try time-out) or answered, the context given back only when the request ends and re-used by a
+			// later request on the same connection, late replies for every earlier attempt
+			nw, rs, rt, gv := xop{K: "new"}, func(s int) xop { return xop{K: "reset", S: s} }, func(s int) xop { return xop{K: "retry", S: s} }, func(s int) xop { return xop{K: "give", S: s} }
+			rp := func(s int) xop { return xop{K: "resp", S: s} }
+			for _, sc := range [][]xop{
+				{nw, rs(0), rt(0), rs(1), gv(0), nw, rp(1), rp(2)},                     // the late reply of try 2 after the buffers moved on
+				{nw, rs(0), rt(0), rs(1), gv(0), nw, rp(0), rp(1), rp(2)},              // late replies of both tries
+				{nw, rs(0), rt(0), rs(1), rp(1), gv(0), nw, rp(2)},                     // late reply before the re-use
+				{nw, rs(0), rt(0), rs(1), gv(0), rp(1), nw, rp(2)},                     // late reply between give and re-use
+				{nw, rp(0), rt(0), rs(1), gv(0), nw, rp(1), rp(2)},                     // try 1 answered (retriable status), try 2 times out
+				{nw, rs(0), rt(0), rp(1), gv(0), nw, rp(0), rp(2)},                     // try 2 answered, late reply of try 1
+				{nw, rs(0), rt(0), rs(1), rt(1), rs(2), gv(0), nw, nw, rp(2), rp(1), rp(4), rp(3)}, // three tries, two later requests
+				{nw, nw, rs(0), rt(0), rs(2), rp(1), gv(0), gv(1), nw, nw, rp(2), rp(3), rp(4)}, // another request in flight meanwhile
+				{nw, rs(0), rt(0), rs(1), rs(1), gv(0), nw, rs(2), rp(1), nw, rp(3)},  // repeated reset of the retry, re-used request reset too
+			} {
+				c0 := wraps[g][r.Intn(len(wraps[g]))]
+				add(runRetry(g, c0, sc))
+			}
 			add(runX(g, c0, "late", []xop{{K: "new"}, {K: "new"}, {K: "reset", S: 0}, {K: "resp", S: 0}, {K: "resp", S: 1}, {K: "reset", S: 1}, {K: "reset", S: 0}, {K: "new"}, {K: "resp", S: 2}}))
 			// connreset at every position
 			base := []xop{{K: "new"}, {K: "new"}, {K: "resp", S: 0}, {K: "new"}, {K: "oneway"}, {K: "reset", S: 1}, {K: "resp", S: 2}, {K: "resp", S: 1}, {K: "new"}, {K: "resp", S: 4}}
